@@ -338,9 +338,14 @@ def c01(tier):
                        label="c01_%d" % i)
     # implementation -> spec: seeded random histories, every hook event and read validated by TLC
     ntr = 6 if thorough else 2
+    first = None
     for j in range(ntr):
         cols = C01_COLS[j % len(C01_COLS)]
-        record_and_validate(rep, cols, 12, 5, 900 if thorough else 350, SEED * 1000 + j, label="c01t%d" % j)
+        r = record_and_validate(rep, cols, 12, 5, 900 if thorough else 350, SEED * 1000 + j, label="c01t%d" % j)
+        first = first or r
+    # the binding is sensitive: tampered copies of the first recorded trace must be rejected
+    binding_selftest(rep, os.path.join(vcore.scratch(), "trace_c01t0.ndjson"), C01_COLS[0], 12, 5,
+                     initrid=first["init_rid"], initcid=first["init_cid"])
     return rep.finish()
 
 
@@ -387,6 +392,63 @@ def validate_trace(rep, trace_path, cols, nkeys, nvals, label, meta, initrid=1, 
     return res
 
 
+
+def binding_selftest(rep, trace_path, cols, nkeys, nvals, initrid=1, initcid=0):
+    """The binding must be sensitive: a recorded trace with one hook event removed, one read result changed or one
+    client call removed must be REJECTED by TLC.  An accepted tampered trace is a tool error (the trace
+    specification constrains too little)."""
+    events = vcore.read_ndjson(trace_path)
+    n = len(events)
+    out = {}
+
+    def run(name, mutated):
+        path = os.path.join(vcore.scratch(), "tampered_%s.ndjson" % name)
+        vcore.write_ndjson(path, mutated)
+        cfg = write_cfg(trace_cfg(cols, nkeys, nvals, initrid=initrid, initcid=initcid))
+        res = vcore.tlc_trace("MCTracePdb.tla", cfg, path)
+        rep.transitions += res.get("generated", 0)
+        if res["accepted"]:
+            raise ToolError("trace validation ACCEPTED a tampered trace (%s): the binding is not sensitive" % name)
+        out[name] = "rejected after %s of %s events" % (res.get("matched"), res.get("total"))
+
+    # 0. control: the untouched trace, written through the same path, is accepted
+    ctl = os.path.join(vcore.scratch(), "tampered_control.ndjson")
+    vcore.write_ndjson(ctl, events)
+    res = vcore.tlc_trace("MCTracePdb.tla", write_cfg(trace_cfg(cols, nkeys, nvals, initrid=initrid, initcid=initcid)), ctl)
+    if not res["accepted"]:
+        raise ToolError("binding self-test: the untouched control trace was rejected (after %s events)" % res.get("matched"))
+    # 1. a hook event removed (the overlay clean-up of some commit in the middle of the run)
+    idx = [i for i, e in enumerate(events) if e.get("e") == "CleanCovl" and i > n // 3]
+    if idx:
+        run("hook_removed", events[:idx[0]] + events[idx[0] + 1:])
+    # 2. one read result changed
+    for i in range(n // 2, n):
+        e = events[i]
+        if e.get("e") == "Obs" and any(v > 0 for col in e["obs"] for v in col):
+            m = json.loads(json.dumps(e))
+            for col in m["obs"]:
+                for j, v in enumerate(col):
+                    if v > 0:
+                        col[j] = v % nvals + 1 if nvals > 1 else 0
+                        break
+                else:
+                    continue
+                break
+            run("read_changed", events[:i] + [m] + events[i + 1:])
+            break
+    # 3. a client call removed (a commit whose effect is visible in the next observation)
+    for i in range(n // 4, n - 1):
+        e = events[i]
+        if e.get("e") == "Commit" and i > 0 and events[i - 1].get("e") == "Obs" and events[i + 1].get("e") == "Obs" \
+                and events[i - 1]["obs"] != events[i + 1]["obs"]:
+            run("call_removed", events[:i] + events[i + 1:])
+            break
+    if len(out) < 2:
+        raise ToolError("binding self-test could not build its tampered traces")
+    rep.extra["binding_selftest"] = out
+    log("[selftest] tampered traces: %s" % out)
+
+
 def trace_event_counts(rep, path):
     """what the recorded traces actually contained (summed over the traces of a run), for the evidence file"""
     cnt = rep.extra.setdefault("trace_event_counts", {})
@@ -431,6 +493,7 @@ def record_and_validate(rep, cols, nkeys, nvals, steps, seed, crash=0, label="",
     res = validate_trace(rep, out, cols, nkeys, nvals, label, meta, initrid=summary.get("init_rid", 1),
                          initcid=summary.get("init_cid", 0))
     trace_event_counts(rep, out)
+    res["init_rid"], res["init_cid"] = summary.get("init_rid", 1), summary.get("init_cid", 0)
     rep.nontrivial.add("trace:%s:%d" % (label, seed))
     if len(rep.samples) < 4:
         with open(out) as f:
@@ -1456,6 +1519,31 @@ def c10(tier):
     if r["ok"]:
         raise ToolError("MultiTree.tla without the increment of existing children passes: vacuous")
     log("[tlc] necessity no_inc: %s after %d states" % (r["violated"], r["distinct"]))
+    # the replay is sensitive: a behaviour whose expected observation was tampered with must be reported
+    tb = mt_generate(rep, 4, 24, SEED * 13, fine=False, shapes="ShapesWide", maxids=14, maxcommits=8, maxlocks=0, nt=3, nv=2)
+    tampered = []
+    for b in tb:
+        m = json.loads(json.dumps(b))
+        hit = False
+        for o in m["obs"][len(m["obs"]) // 2:]:
+            for v in o["vis"]:
+                if v["rc"] > 0 and not hit:
+                    v["data"] = v["data"] + 1000
+                    hit = True
+            if hit:
+                break
+        if hit:
+            tampered.append(m)
+    if not tampered:
+        raise ToolError("replay self-test: no behaviour with a live tree to tamper with")
+    inp = os.path.join(vcore.scratch(), "beh_c10_tampered.ndjson")
+    outp = os.path.join(vcore.scratch(), "res_c10_tampered.ndjson")
+    vcore.write_ndjson(inp, tampered)
+    vcore.pdbh("mtree-replay", {"in": inp, "out": outp, "seed": SEED, "variant": ""})
+    caught = sum(1 for r in vcore.read_ndjson(outp) if r["violations"])
+    if caught != len(tampered):
+        raise ToolError("replay ACCEPTED %d of %d tampered behaviours: the binding is not sensitive" % (len(tampered) - caught, len(tampered)))
+    rep.extra["binding_selftest"] = "%d behaviours with a changed expected root: all reported" % caught
     variants = ["", "rc", "direct", "ao", "direct,pads", "big", "pads", "rc,direct,pads,big"]
     if thorough:
         variants += ["direct,big,pads", "rc,big", "ao,big,pads", "rc,pads"]
